@@ -1,7 +1,7 @@
 (* Property C09 -- roots and integrals of observable-dependent functions propagate errors exactly.  Theorems only. *)
 From Coq Require Import ZArith QArith Reals List Bool.
 From Interval Require Import Interval.Interval Real.Xreal Real.Xreal_derive.
-From PV Require Import Base.QAux Base.RI Base.Expr Base.ExprFold Base.Dyadic Base.DyadicR Lin.Mat Fit.Implicit Fit.ImplicitSound Fit.ImplicitTop Fit.TableSound.
+From PV Require Import Base.QAux Base.RI Base.Expr Base.ExprFold Base.Dyadic Base.DyadicR Lin.Mat Fit.Implicit Fit.ImplicitSound Fit.ImplicitTop Fit.TableSound Fit.VerdictSound.
 Import ListNotations.
 
 (* the symbolic derivatives df/dx, df/dd (roots) and d/d(p, a, b) of the antiderivative difference (integrals) are the real derivatives *)
@@ -107,3 +107,21 @@ Print Assumptions interval_bounds_as_dyadics.
 Print Assumptions differentiated_equation_decision_is_sound.
 Print Assumptions positive_verdict_implies_the_differentiated_equations.
 Print Assumptions fluctuation_table_rows_enclose_the_weighted_fluctuations.
+
+(* the root / integral verdicts are sound as statements about real numbers (Fit/VerdictSound.v): the residual of the real equation at the
+   returned solution is below tol * |d eq / d x| * (1 + |x|), and the closed form agrees within the stated tolerance *)
+Theorem equation_verdict_is_sound :
+  forall (c : icase) tol i,
+  (i < ic_nu c)%nat -> guardsI (ic_env c) (nth i (ic_eqs c) (EC 0)) = true -> equations_hold c tol = true ->
+  let l := (ic_uvals c ++ ic_dvals c)%list in let eq := nth i (ic_eqs c) (EC 0) in
+  exists r, evalX (renv (qenvR l)) eq = Xreal r
+            /\ (Rabs r <= Q2R tol * (Rabs (dval l eq i) * (1 + Rabs (Q2R (nth i (ic_uvals c) 0%Q)))))%R
+            /\ Xderive_pt (fun t => evalX (updX (qenvR l) i t) eq) (Xreal (qenvR l i)) (Xreal (dval l eq i)).
+Proof. exact equations_hold_sound. Qed.
+Theorem closed_form_verdict_is_sound :
+  forall (c : icase) g tol, closed_form_ok c g tol = true ->
+  exists r, evalX (renv (qenvR (ic_uvals c ++ ic_dvals c))) g = Xreal r
+            /\ (Rabs (r - Q2R (nth 0 (ic_uvals c) 0%Q)) < Q2R (Qabs.Qabs (nth 0 (ic_uvals c) 0%Q) * tol + tol))%R.
+Proof. exact closed_form_ok_sound. Qed.
+Print Assumptions equation_verdict_is_sound.
+Print Assumptions closed_form_verdict_is_sound.
